@@ -1083,11 +1083,40 @@ fn main() {
         }
         cx.run_cases("dynamic-tables", &dcases, |c| {
             let mut out = CaseOut::batch();
-            let run = vgad::run_once(c, kof(c).unwrap(), vec![], true);
-            let Some(prover) = &run.prover else {
+            use vgad::laws::Subject;
+            let Some((prover, names, trace)) = vgad::laws::Of(c).s_traced(kof(c).unwrap()) else {
                 out.eval("dyn-table:no-circuit", false);
                 return out;
             };
+            let prover = &prover;
+            // coverage: on a selection row (tag set, row not part of the table) every advice cell the
+            // chip assigns in the "multi_select table" region must be an input of the lookup — the
+            // selected limbs are deliberately not copied from anywhere, the lookup is all that binds them
+            if let (Some((inputs, cols)), Some(tuples)) = (vgad::lookup_input_tuples(prover, "multi_select lookup"), vgad::lookup_table_tuples(prover, "multi_select lookup")) {
+                let sel_rows: std::collections::HashSet<usize> = inputs
+                    .iter()
+                    .zip(tuples.iter())
+                    .filter(|((_, i), (_, t))| !i.is_empty() && i[i.len() - 1] != F::from(0) && t[t.len() - 1] == F::from(0))
+                    .map(|((r, _), _)| *r)
+                    .collect();
+                let mut uncovered: Vec<(u32, u32)> = vec![];
+                for e in &trace {
+                    if names.get(e.region as usize).map(|n| n == "multi_select table").unwrap_or(false) && sel_rows.contains(&(e.row as usize)) && !cols.contains(&(e.column as usize)) {
+                        uncovered.push((e.column, e.row));
+                    }
+                }
+                out.counter("dynamic_table_selection_rows", sel_rows.len() as u64);
+                if !sel_rows.is_empty() {
+                    out.eval(if uncovered.is_empty() { "dyn-table:selection-covered" } else { "dyn-table:selection-not-covered" }, true);
+                }
+                if let Some((col, row)) = uncovered.first() {
+                    out.viol(Viol::new(
+                        format!("{}:{}:selection-cell-not-bound-by-lookup", c.cv.name(), c.op.name()),
+                        format!("the selection at row {row} assigns advice column {col}, which is not an input of the multi-select lookup ({} such cell(s)): the selected point is bound to the table in some limbs only", uncovered.len()),
+                        json!({"case": c.key(), "cells": uncovered.len()}),
+                    ));
+                }
+            }
             let Some(tuples) = vgad::lookup_table_tuples(prover, "multi_select lookup") else {
                 out.eval("dyn-table:no-such-lookup", false);
                 return out;
